@@ -1,34 +1,64 @@
-//! C16 black-box tier: a real worker thread (`Server::try_new_from_config`,
-//! HTTP listener, one cluster with a live backend, one whose backend refuses),
-//! driven through real sockets with a seeded mix of session outcomes —
-//! complete, keep-alive then close, client reset after the answer, reset in the
-//! middle of the request head, backend refusal (503), idle close, idle until
-//! the front timeout reclaims the session, TCP relays (complete, reset, backend
-//! refusal), and a storm above `max_connections`
-//! — then the gauges reported by `QueryMetrics` (`client.connections`,
-//! `slab.entries`, `buffer.in_use`, the backend connection gauges) are compared
-//! with the baseline read before any traffic.
+//! C16 black-box tier: a real worker thread (`Server::try_new_from_config`)
+//! with an HTTP listener (60 s timeouts), a second HTTP listener with 2 s
+//! timeouts, an HTTPS listener (HTTP/1.1 and HTTP/2 by ALPN), two TCP
+//! listeners; a cluster with a live scripted backend and one whose backend
+//! refuses.  A seeded mix of session outcomes is driven through real sockets:
 //!
-//! usage: c16bb <seed> <max_connections> <per-ip limit> <rounds>
-//! Nothing here depends on how fast anything happens: "served concurrently" is
-//! counted while every connection of the storm is held open (a slow worker can
-//! only lower it), and the return to baseline is polled with a 40 s deadline
-//! against timeouts of 2 s.
+//!   HTTP/1   complete · keep-alive (3 requests on one connection) · reset after
+//!            the answer · reset inside the request head · backend refusal (503)
+//!            · idle close · idle until the front timeout / the zombie check
+//!            reclaims the session · backend disappearing in the middle of the
+//!            response · WebSocket upgrade closed by the client / by the backend
+//!   TLS      garbage instead of a ClientHello · abort after the ClientHello ·
+//!            HTTP/1.1 over TLS complete
+//!   HTTP/2   complete · a stream reset with RST_STREAM then another stream ·
+//!            client gone in the middle of a stream
+//!   TCP      complete · reset · backend refusal
+//!   limits   a storm above `max_connections` · the per-(cluster, ip) limit
+//!            raised / lowered / disabled at run time (`SetMaxConnectionsPerIp`)
+//!            · optional eviction on queue full
+//!
+//! Oracles (the property's own, nothing of the model is involved):
+//!   * after everything is over the gauges of `QueryMetrics` are back to the idle
+//!     baseline (`client.connections`, `slab.entries`, `buffer.in_use`,
+//!     `accept_queue.connections`, `http.active_requests`, the per-cluster /
+//!     per-backend connection gauges), polled with a 40 s deadline;
+//!   * the per-(cluster, ip) slots are back to baseline: with the limit set to
+//!     `n`, `n` fresh concurrent connections are all served;
+//!   * no gauge underflow was clamped (`VERIF_GAUGE_UNDERFLOWS`, cfg(sozu_verif));
+//!   * never more than `max_connections` connections are being served at once,
+//!     never more than the per-ip limit towards one cluster, and a connection
+//!     that holds a slot is never refused its own slot (one slot per connection);
+//!   * idle sessions are reclaimed; the worker accepts again after the storm.
+//!
+//! usage: c16bb <seed> <max_connections> <per-ip limit> <rounds> [evict 0|1] [zombie secs, 0 = default] [k<i>_<j>..: only these outcomes]
+//! Nothing depends on how fast anything happens: "served at once" counts
+//! connections answered while every connection of the storm is held open and
+//! still open afterwards (a slow worker can only lower it); every wait for a
+//! return to baseline has a 40 s deadline against timeouts of 2-3 s.
 use std::{
     io::{Read, Write},
     net::{SocketAddr, TcpListener, TcpStream},
     os::fd::IntoRawFd,
     os::unix::net::UnixStream,
+    sync::atomic::Ordering,
+    sync::Arc,
     time::{Duration, Instant},
 };
 
+use rustls::{
+    client::danger::{HandshakeSignatureValid, ServerCertVerified, ServerCertVerifier},
+    pki_types::{CertificateDer, ServerName, UnixTime},
+    ClientConfig, ClientConnection, DigitallySignedStruct, SignatureScheme,
+};
 use sozu_command_lib::{
     channel::Channel,
     config::{ConfigBuilder, FileConfig, ListenerBuilder},
     proto::command::{
         filtered_metrics::Inner, request::RequestType, response_content::ContentType, ActivateListener, AddBackend,
-        Cluster, ListenerType, LoadBalancingParams, PathRule, QueryMetricsOptions, Request, RequestHttpFrontend, RequestTcpFrontend,
-        ResponseStatus, RulePosition, ServerConfig, SocketAddress, WorkerRequest, WorkerResponse,
+        AddCertificate, CertificateAndKey, Cluster, ListenerType, LoadBalancingParams, PathRule, QueryMetricsOptions,
+        Request, RequestHttpFrontend, RequestTcpFrontend, ResponseStatus, RulePosition, ServerConfig, SocketAddress,
+        WorkerMetrics, WorkerRequest, WorkerResponse,
     },
     scm_socket::{Listeners, ScmSocket},
     state::ConfigState,
@@ -49,6 +79,10 @@ fn free_port() -> u16 {
     TcpListener::bind("127.0.0.1:0").unwrap().local_addr().unwrap().port()
 }
 
+// ---------------------------------------------------------------- backend
+
+/// `/x` → 200 pong (keep-alive) · `/ws*` → 101 then echo; after an echo of "bye" the backend closes
+/// · `/cut` → a head announcing 100 bytes, 10 of them, then the backend disappears
 fn backend(listener: TcpListener) {
     for conn in listener.incoming() {
         let Ok(mut s) = conn else { continue };
@@ -62,8 +96,31 @@ fn backend(listener: TcpListener) {
                     Ok(n) => acc.extend_from_slice(&buf[..n]),
                 }
                 while let Some(p) = acc.windows(4).position(|w| w == b"\r\n\r\n") {
+                    let head = String::from_utf8_lossy(&acc[..p]).to_string();
                     acc.drain(..p + 4);
-                    if s.write_all(b"HTTP/1.1 200 OK\r\nContent-Length: 4\r\n\r\npong").is_err() {
+                    let line = head.lines().next().unwrap_or("").to_string();
+                    if line.contains(" /ws") {
+                        if s.write_all(b"HTTP/1.1 101 Switching Protocols\r\nUpgrade: websocket\r\nConnection: Upgrade\r\nSec-WebSocket-Accept: s3pPLMBiTxaQ9kYGzzhZRbK+xOo=\r\n\r\n").is_err() {
+                            return;
+                        }
+                        // raw echo until somebody leaves
+                        loop {
+                            match s.read(&mut buf) {
+                                Ok(0) | Err(_) => return,
+                                Ok(n) => {
+                                    if s.write_all(&buf[..n]).is_err() {
+                                        return;
+                                    }
+                                    if buf[..n].windows(3).any(|w| w == b"bye") {
+                                        return;
+                                    }
+                                }
+                            }
+                        }
+                    } else if line.contains(" /cut") {
+                        let _ = s.write_all(b"HTTP/1.1 200 OK\r\nContent-Length: 100\r\n\r\n0123456789");
+                        return;
+                    } else if s.write_all(b"HTTP/1.1 200 OK\r\nContent-Length: 4\r\n\r\npong").is_err() {
                         return;
                     }
                 }
@@ -71,6 +128,8 @@ fn backend(listener: TcpListener) {
         });
     }
 }
+
+// ---------------------------------------------------------------- command channel
 
 type Main = Channel<WorkerRequest, WorkerResponse>;
 
@@ -90,8 +149,7 @@ fn send(ch: &mut Main, id: &str, r: RequestType) -> Option<WorkerResponse> {
     None
 }
 
-/// the gauges of the footprint: name -> value
-fn query(ch: &mut Main, n: &mut u32, clusters: Vec<String>) -> Option<sozu_command_lib::proto::command::WorkerMetrics> {
+fn query(ch: &mut Main, n: &mut u32, clusters: Vec<String>) -> Option<WorkerMetrics> {
     *n += 1;
     let resp = send(
         ch,
@@ -111,18 +169,31 @@ fn query(ch: &mut Main, n: &mut u32, clusters: Vec<String>) -> Option<sozu_comma
     }
 }
 
+/// the gauges of the footprint: name -> value
 fn gauges(ch: &mut Main, n: &mut u32) -> Option<Vec<(String, u64)>> {
     let mut out = vec![];
     let m = query(ch, n, vec![])?;
-    for name in ["client.connections", "slab.entries", "buffer.in_use", "accept_queue.connections", "http.active_requests"] {
+    for name in [
+        "client.connections",
+        "slab.entries",
+        "buffer.in_use",
+        "accept_queue.connections",
+        "http.active_requests",
+        "websocket.active_requests",
+        "backend.connections",
+        "backend.pool.size",
+        "protocol.http",
+        "protocol.https",
+        "protocol.ws",
+        "protocol.wss",
+        "protocol.tcp",
+        "protocol.tls.handshake",
+    ] {
         if let Some(Inner::Gauge(v)) = m.proxy.get(name).and_then(|f| f.inner.clone()) {
             out.push((name.to_string(), v));
         }
     }
     if let Some(m) = query(ch, n, vec!["good".into(), "dead".into()]) {
-        if std::env::var("C16BB_DEBUG").is_ok() {
-            println!("note clusters {:?}", m.clusters);
-        }
         for (cid, cm) in &m.clusters {
             for (name, f) in &cm.cluster {
                 if name.contains("connections") || name.contains("active_requests") {
@@ -145,13 +216,15 @@ fn gauges(ch: &mut Main, n: &mut u32) -> Option<Vec<(String, u64)>> {
     Some(out)
 }
 
-fn request(host: &str, close: bool) -> String {
-    format!("GET /x HTTP/1.1\r\nHost: {host}\r\nConnection: {}\r\n\r\n", if close { "close" } else { "keep-alive" })
+// ---------------------------------------------------------------- clients
+
+fn request(host: &str, path: &str, close: bool) -> String {
+    format!("GET {path} HTTP/1.1\r\nHost: {host}\r\nConnection: {}\r\n\r\n", if close { "close" } else { "keep-alive" })
 }
 
-/// reads one response head (+ the 4-byte body of the mock backend when 200); returns the status line
-fn read_response(c: &mut TcpStream, wait: Duration) -> Option<String> {
-    let _ = c.set_read_timeout(Some(Duration::from_millis(200)));
+/// reads one response head (+ the 4-byte body of the mock backend when 200); returns the status line.
+/// The stream must have a short read timeout.
+fn read_response<S: Read>(c: &mut S, wait: Duration) -> Option<String> {
     let t0 = Instant::now();
     let mut acc = vec![];
     let mut buf = [0u8; 4096];
@@ -169,10 +242,18 @@ fn read_response(c: &mut TcpStream, wait: Duration) -> Option<String> {
                     }
                 }
             }
-            Err(_) => {}
+            Err(e) if e.kind() == std::io::ErrorKind::WouldBlock || e.kind() == std::io::ErrorKind::TimedOut => {}
+            Err(_) => break,
         }
     }
     if acc.is_empty() { None } else { Some(String::from_utf8_lossy(&acc).lines().next().unwrap_or("").to_string()) }
+}
+
+fn tcp(addr: &SocketAddr) -> Option<TcpStream> {
+    let c = TcpStream::connect_timeout(addr, Duration::from_secs(3)).ok()?;
+    let _ = c.set_read_timeout(Some(Duration::from_millis(200)));
+    let _ = c.set_write_timeout(Some(Duration::from_secs(3)));
+    Some(c)
 }
 
 fn reset(c: TcpStream) {
@@ -190,17 +271,181 @@ fn reset(c: TcpStream) {
     drop(c);
 }
 
+/// has the peer closed? (non-destructive as far as this driver cares: pending bytes are dropped)
+fn still_open(c: &mut TcpStream) -> bool {
+    let _ = c.set_read_timeout(Some(Duration::from_millis(30)));
+    let mut buf = [0u8; 256];
+    loop {
+        match c.read(&mut buf) {
+            Ok(0) => return false,
+            Ok(_) => continue,
+            Err(e) if e.kind() == std::io::ErrorKind::WouldBlock || e.kind() == std::io::ErrorKind::TimedOut => return true,
+            Err(_) => return false,
+        }
+    }
+}
+
+/// waits for the peer to close the connection
+fn wait_closed<S: Read>(c: &mut S, max: Duration) -> bool {
+    let t0 = Instant::now();
+    let mut buf = [0u8; 512];
+    while t0.elapsed() < max {
+        match c.read(&mut buf) {
+            Ok(0) => return true,
+            Ok(_) => {}
+            Err(e) if e.kind() == std::io::ErrorKind::WouldBlock || e.kind() == std::io::ErrorKind::TimedOut => {}
+            Err(_) => return true,
+        }
+    }
+    false
+}
+
+// ---------------------------------------------------------------- TLS / H2
+
+#[derive(Debug)]
+struct NoVerify(Vec<SignatureScheme>);
+impl ServerCertVerifier for NoVerify {
+    fn verify_server_cert(
+        &self,
+        _e: &CertificateDer<'_>,
+        _i: &[CertificateDer<'_>],
+        _s: &ServerName<'_>,
+        _o: &[u8],
+        _n: UnixTime,
+    ) -> Result<ServerCertVerified, rustls::Error> {
+        Ok(ServerCertVerified::assertion())
+    }
+    fn verify_tls12_signature(&self, _m: &[u8], _c: &CertificateDer<'_>, _d: &DigitallySignedStruct) -> Result<HandshakeSignatureValid, rustls::Error> {
+        Ok(HandshakeSignatureValid::assertion())
+    }
+    fn verify_tls13_signature(&self, _m: &[u8], _c: &CertificateDer<'_>, _d: &DigitallySignedStruct) -> Result<HandshakeSignatureValid, rustls::Error> {
+        Ok(HandshakeSignatureValid::assertion())
+    }
+    fn supported_verify_schemes(&self) -> Vec<SignatureScheme> {
+        self.0.clone()
+    }
+}
+
+fn tls_config(alpn: &[&[u8]]) -> Arc<ClientConfig> {
+    let provider = Arc::new(rustls::crypto::ring::default_provider());
+    let schemes = provider.signature_verification_algorithms.supported_schemes();
+    let mut cfg = ClientConfig::builder_with_provider(provider)
+        .with_safe_default_protocol_versions()
+        .unwrap()
+        .dangerous()
+        .with_custom_certificate_verifier(Arc::new(NoVerify(schemes)))
+        .with_no_client_auth();
+    cfg.alpn_protocols = alpn.iter().map(|a| a.to_vec()).collect();
+    Arc::new(cfg)
+}
+
+type Tls = rustls::StreamOwned<ClientConnection, TcpStream>;
+
+fn tls_connect(addr: &SocketAddr, alpn: &[&[u8]]) -> Option<Tls> {
+    let sock = tcp(addr)?;
+    let _ = sock.set_read_timeout(Some(Duration::from_secs(3)));
+    let conn = ClientConnection::new(tls_config(alpn), ServerName::try_from("localhost").unwrap()).ok()?;
+    let mut s = rustls::StreamOwned::new(conn, sock);
+    let t0 = Instant::now();
+    while s.conn.is_handshaking() {
+        if t0.elapsed() > Duration::from_secs(5) || s.conn.complete_io(&mut s.sock).is_err() {
+            return None;
+        }
+    }
+    let _ = s.sock.set_read_timeout(Some(Duration::from_millis(200)));
+    Some(s)
+}
+
+fn h2_frame(t: u8, flags: u8, sid: u32, payload: &[u8]) -> Vec<u8> {
+    let mut v = vec![(payload.len() >> 16) as u8, (payload.len() >> 8) as u8, payload.len() as u8, t, flags];
+    v.extend_from_slice(&sid.to_be_bytes());
+    v.extend_from_slice(payload);
+    v
+}
+
+/// HPACK, no Huffman, nothing added to the dynamic table
+fn h2_headers(method_post: bool, path: &str) -> Vec<u8> {
+    let mut b = vec![if method_post { 0x83 } else { 0x82 }, 0x87]; // :method, :scheme https
+    b.push(0x04); // :path, literal without indexing, indexed name 4
+    b.push(path.len() as u8);
+    b.extend_from_slice(path.as_bytes());
+    b.push(0x01); // :authority
+    b.push(9);
+    b.extend_from_slice(b"localhost");
+    b
+}
+
+fn h2_open(addr: &SocketAddr) -> Option<Tls> {
+    let mut s = tls_connect(addr, &[b"h2"])?;
+    if s.conn.alpn_protocol() != Some(b"h2".as_ref()) {
+        return None;
+    }
+    s.write_all(b"PRI * HTTP/2.0\r\n\r\nSM\r\n\r\n").ok()?;
+    s.write_all(&h2_frame(4, 0, 0, &[])).ok()?;
+    Some(s)
+}
+
+/// reads frames until stream `sid` ends (END_STREAM / RST_STREAM / GOAWAY); acks SETTINGS. -> status seen?
+fn h2_read_stream(s: &mut Tls, sid: u32, wait: Duration) -> Option<bool> {
+    let t0 = Instant::now();
+    let mut acc: Vec<u8> = vec![];
+    let mut buf = [0u8; 4096];
+    let mut got_headers = false;
+    while t0.elapsed() < wait {
+        match s.read(&mut buf) {
+            Ok(0) => return None,
+            Ok(n) => acc.extend_from_slice(&buf[..n]),
+            Err(e) if e.kind() == std::io::ErrorKind::WouldBlock || e.kind() == std::io::ErrorKind::TimedOut => {}
+            Err(_) => return None,
+        }
+        while acc.len() >= 9 {
+            let len = ((acc[0] as usize) << 16) | ((acc[1] as usize) << 8) | acc[2] as usize;
+            if acc.len() < 9 + len {
+                break;
+            }
+            let (t, flags) = (acc[3], acc[4]);
+            let fsid = u32::from_be_bytes([acc[5], acc[6], acc[7], acc[8]]) & 0x7fff_ffff;
+            acc.drain(..9 + len);
+            match t {
+                4 if flags & 1 == 0 => {
+                    let _ = s.write_all(&h2_frame(4, 1, 0, &[]));
+                }
+                1 if fsid == sid => {
+                    got_headers = true;
+                    if flags & 1 != 0 {
+                        return Some(true);
+                    }
+                }
+                0 if fsid == sid && flags & 1 != 0 => return Some(got_headers),
+                3 if fsid == sid => return Some(false),
+                7 => return Some(false),
+                _ => {}
+            }
+        }
+    }
+    None
+}
+
+// ---------------------------------------------------------------- main
+
 fn main() {
     let args: Vec<String> = std::env::args().collect();
-    let seed: u64 = args.get(1).and_then(|x| x.parse().ok()).unwrap_or(1);
-    let maxc: u64 = args.get(2).and_then(|x| x.parse().ok()).unwrap_or(2);
-    let per_ip: u64 = args.get(3).and_then(|x| x.parse().ok()).unwrap_or(0);
-    let rounds: usize = args.get(4).and_then(|x| x.parse().ok()).unwrap_or(12);
+    let arg = |i: usize, d: u64| args.get(i).and_then(|x| x.parse().ok()).unwrap_or(d);
+    let seed = arg(1, 1);
+    let maxc = arg(2, 2);
+    let per_ip = arg(3, 0);
+    let rounds = arg(4, 12) as usize;
+    let evict = arg(5, 0) == 1;
+    let zombie = arg(6, 0) as u32;
     let logfile = format!("/tmp/c16bb-{}-{}.log", std::process::id(), seed);
     let _ = std::fs::remove_file(&logfile);
     let mut rng = Rng(seed.wrapping_mul(0x9E3779B97F4A7C15) | 1);
 
     let front: SocketAddr = format!("127.0.0.1:{}", free_port()).parse().unwrap();
+    let front2: SocketAddr = format!("127.0.0.1:{}", free_port()).parse().unwrap();
+    let fronts: SocketAddr = format!("127.0.0.1:{}", free_port()).parse().unwrap();
+    let tcp_good: SocketAddr = format!("127.0.0.1:{}", free_port()).parse().unwrap();
+    let tcp_dead: SocketAddr = format!("127.0.0.1:{}", free_port()).parse().unwrap();
     let back_listener = TcpListener::bind("127.0.0.1:0").unwrap();
     let back: SocketAddr = back_listener.local_addr().unwrap();
     let dead: SocketAddr = format!("127.0.0.1:{}", free_port()).parse().unwrap(); // nobody listens
@@ -211,6 +456,10 @@ fn main() {
     sc.max_connections = maxc;
     sc.max_connections_per_ip = Some(per_ip);
     sc.accept_queue_timeout = 3;
+    sc.evict_on_queue_full = Some(evict);
+    if zombie > 0 {
+        sc.zombie_check_interval = zombie;
+    }
     let (mut main_ch, worker_ch): (Main, Channel<WorkerResponse, WorkerRequest>) =
         Channel::generate(sc.command_buffer_size, sc.max_command_buffer_size).expect("channel");
     let (s1, s2) = UnixStream::pair().unwrap();
@@ -219,8 +468,8 @@ fn main() {
     scm_main.send_listeners(&Listeners::default()).expect("send listeners");
     let sc2 = sc.clone();
     let lf = logfile.clone();
+    let underflows_before = sozu_lib::metrics::VERIF_GAUGE_UNDERFLOWS.load(Ordering::SeqCst);
     std::thread::spawn(move || {
-        // the logger is per thread: errors (incl. "metric ... underflow") go to a file we read back
         let _ = sozu_command_lib::logging::setup_logging(&format!("file://{lf}"), false, None, None, None, "error", "C16BB");
         let mut server =
             Server::try_new_from_config(worker_ch, scm_worker, sc2, ConfigState::new().produce_initial_state(), false)
@@ -228,19 +477,16 @@ fn main() {
         server.run();
     });
     main_ch.blocking().expect("blocking");
+
     let fa: SocketAddress = front.into();
-    // a second listener with 2 s timeouts, used only by the "idle until reclaimed" outcome; the
-    // main one keeps the 60 s defaults so that a served keep-alive session stays open for the
-    // few seconds the storm is measured
-    let front2: SocketAddr = format!("127.0.0.1:{}", free_port()).parse().unwrap();
     let fa2: SocketAddress = front2.into();
+    let fas: SocketAddress = fronts.into();
     let mut lb = ListenerBuilder::new_http(fa.clone());
     lb.with_connect_timeout(Some(1));
     let mut lb2 = ListenerBuilder::new_http(fa2.clone());
     lb2.with_front_timeout(Some(2)).with_request_timeout(Some(2)).with_back_timeout(Some(2)).with_connect_timeout(Some(1));
-    // two TCP listeners: one in front of the live backend, one in front of the refusing one
-    let tcp_good: SocketAddr = format!("127.0.0.1:{}", free_port()).parse().unwrap();
-    let tcp_dead: SocketAddr = format!("127.0.0.1:{}", free_port()).parse().unwrap();
+    let mut lbs = ListenerBuilder::new_https(fas.clone());
+    lbs.with_connect_timeout(Some(1));
     let tcp_listener = |a: SocketAddr, cluster: &str| -> Vec<RequestType> {
         let sa: SocketAddress = a.into();
         let mut b = ListenerBuilder::new_tcp(sa.clone());
@@ -251,15 +497,13 @@ fn main() {
             RequestType::AddTcpFrontend(RequestTcpFrontend { cluster_id: cluster.into(), address: sa, ..Default::default() }),
         ]
     };
-    let front_of = |cluster: &str, host: &str, fa: &SocketAddress| {
-        RequestType::AddHttpFrontend(RequestHttpFrontend {
-            cluster_id: Some(cluster.into()),
-            address: fa.clone(),
-            hostname: host.into(),
-            path: PathRule::prefix("/".to_string()),
-            position: RulePosition::Tree.into(),
-            ..Default::default()
-        })
+    let front_of = |cluster: &str, host: &str, fa: &SocketAddress| RequestHttpFrontend {
+        cluster_id: Some(cluster.into()),
+        address: fa.clone(),
+        hostname: host.into(),
+        path: PathRule::prefix("/".to_string()),
+        position: RulePosition::Tree.into(),
+        ..Default::default()
     };
     let backend_of = |cluster: &str, addr: SocketAddr| {
         RequestType::AddBackend(AddBackend {
@@ -271,20 +515,30 @@ fn main() {
             backup: None,
         })
     };
-    let setup = vec![
+    let assets = "/repo/lib/assets";
+    let cert = std::fs::read_to_string(format!("{assets}/local-certificate.pem")).unwrap_or_default();
+    let key = std::fs::read_to_string(format!("{assets}/local-key.pem")).unwrap_or_default();
+    let mut setup = vec![
         RequestType::AddHttpListener(lb.to_http(None).unwrap()),
         RequestType::ActivateListener(ActivateListener { address: fa.clone(), proxy: ListenerType::Http.into(), from_scm: false }),
         RequestType::AddHttpListener(lb2.to_http(None).unwrap()),
         RequestType::ActivateListener(ActivateListener { address: fa2.clone(), proxy: ListenerType::Http.into(), from_scm: false }),
+        RequestType::AddHttpsListener(lbs.to_tls(None).unwrap()),
+        RequestType::ActivateListener(ActivateListener { address: fas.clone(), proxy: ListenerType::Https.into(), from_scm: false }),
         RequestType::AddCluster(Cluster { cluster_id: "good".into(), ..Default::default() }),
         RequestType::AddCluster(Cluster { cluster_id: "dead".into(), ..Default::default() }),
-        front_of("good", "good.test", &fa),
-        front_of("dead", "dead.test", &fa),
-        front_of("good", "good.test", &fa2),
+        RequestType::AddHttpFrontend(front_of("good", "good.test", &fa)),
+        RequestType::AddHttpFrontend(front_of("dead", "dead.test", &fa)),
+        RequestType::AddHttpFrontend(front_of("good", "good.test", &fa2)),
+        RequestType::AddHttpsFrontend(front_of("good", "localhost", &fas)),
+        RequestType::AddCertificate(AddCertificate {
+            address: fas.clone(),
+            certificate: CertificateAndKey { certificate: cert, key, certificate_chain: vec![], versions: vec![], names: vec![] },
+            expired_at: None,
+        }),
         backend_of("good", back),
         backend_of("dead", dead),
     ];
-    let mut setup = setup;
     setup.extend(tcp_listener(tcp_good, "good"));
     setup.extend(tcp_listener(tcp_dead, "dead"));
     for (i, r) in setup.into_iter().enumerate() {
@@ -305,125 +559,247 @@ fn main() {
     println!("obs baseline {:?}", base);
     let get = |g: &Vec<(String, u64)>, k: &str| g.iter().find(|(n, _)| n == k).map(|(_, v)| *v);
 
-    let connect = || TcpStream::connect_timeout(&front, Duration::from_secs(3)).ok();
-    let mut counts = [0usize; 11];
-    for _ in 0..rounds {
-        let kind = (rng.next() % 11) as usize;
+    // the per-ip limit currently in force (changed at run time by outcome 20)
+    let mut limit = per_ip;
+    // the tightest limit that was in force ever since some still-open connection was admitted: the
+    // storm only holds connections it opened itself after the last change, so `limit` is it
+    const NKINDS: u64 = 22;
+    let mut counts = [0usize; NKINDS as usize];
+    // debugging aid: C16BB_ONLY=7,19 cycles through the given outcomes only
+    let only: Option<Vec<usize>> = std::env::var("C16BB_ONLY")
+        .ok()
+        .map(|v| v.split(',').filter_map(|x| x.parse().ok()).collect())
+        .or_else(|| {
+            // 7th argument `k8_9`: cycle through outcomes 8 and 9 only (used by corpus witnesses)
+            args.get(7).and_then(|a| a.strip_prefix('k')).map(|v| v.split('_').filter_map(|x| x.parse().ok()).collect())
+        });
+    for round in 0..rounds {
+        let mut kind = (rng.next() % NKINDS) as usize;
+        if let Some(k) = only.as_ref() {
+            kind = k[round % k.len()];
+        }
         counts[kind] += 1;
         match kind {
             0 => {
-                // complete
-                if let Some(mut c) = connect() {
-                    let _ = c.write_all(request("good.test", true).as_bytes());
+                if let Some(mut c) = tcp(&front) {
+                    let _ = c.write_all(request("good.test", "/x", true).as_bytes());
                     let _ = read_response(&mut c, Duration::from_secs(5));
                 }
             }
             1 => {
-                // keep-alive, two requests, orderly close
-                if let Some(mut c) = connect() {
-                    for _ in 0..2 {
-                        let _ = c.write_all(request("good.test", false).as_bytes());
-                        let _ = read_response(&mut c, Duration::from_secs(5));
+                // keep-alive: three requests on one connection; a connection that holds its
+                // (cluster, ip) slot must never be refused that slot
+                if let Some(mut c) = tcp(&front) {
+                    let mut first = None;
+                    for i in 0..3 {
+                        let _ = c.write_all(request("good.test", "/x", false).as_bytes());
+                        let r = read_response(&mut c, Duration::from_secs(5));
+                        if i == 0 {
+                            first = r.clone();
+                        } else if first.as_ref().is_some_and(|l| l.contains(" 200")) && r.as_ref().is_some_and(|l| l.contains(" 429")) {
+                            println!("viol slot-per-connection request {} of a keep-alive connection was refused 429 after its first request was served", i + 1);
+                        }
                     }
                 }
             }
             2 => {
-                // reset after the answer
-                if let Some(mut c) = connect() {
-                    let _ = c.write_all(request("good.test", false).as_bytes());
+                if let Some(mut c) = tcp(&front) {
+                    let _ = c.write_all(request("good.test", "/x", false).as_bytes());
                     let _ = read_response(&mut c, Duration::from_secs(5));
                     reset(c);
                 }
             }
             3 => {
-                // reset in the middle of the request head
-                if let Some(mut c) = connect() {
+                if let Some(mut c) = tcp(&front) {
                     let _ = c.write_all(b"GET /x HTTP/1.1\r\nHost: good.te");
                     std::thread::sleep(Duration::from_millis(30));
                     reset(c);
                 }
             }
             4 => {
-                // the backend refuses the connection
-                if let Some(mut c) = connect() {
-                    let _ = c.write_all(request("dead.test", false).as_bytes());
+                if let Some(mut c) = tcp(&front) {
+                    let _ = c.write_all(request("dead.test", "/x", false).as_bytes());
                     let _ = read_response(&mut c, Duration::from_secs(8));
                 }
             }
             5 => {
-                // connect, say nothing, close
-                if let Some(c) = connect() {
+                if let Some(c) = tcp(&front) {
                     std::thread::sleep(Duration::from_millis(20));
                     drop(c);
                 }
             }
             6 => {
-                // idle until the worker reclaims the session (front timeout 2 s on the second listener)
-                if let Some(mut c) = TcpStream::connect_timeout(&front2, Duration::from_secs(3)).ok() {
-                    let _ = c.set_read_timeout(Some(Duration::from_millis(500)));
-                    let t0 = Instant::now();
-                    let mut closed = false;
-                    let mut buf = [0u8; 512];
-                    while t0.elapsed() < Duration::from_secs(40) {
-                        match c.read(&mut buf) {
-                            Ok(0) => {
-                                closed = true;
-                                break;
-                            }
-                            Ok(_) => {}
-                            Err(e) if e.kind() == std::io::ErrorKind::WouldBlock || e.kind() == std::io::ErrorKind::TimedOut => {}
-                            Err(_) => {
-                                closed = true;
-                                break;
-                            }
-                        }
+                // idle until the worker reclaims the session: front timeout (2 s) on the second listener,
+                // or the zombie check on the main one when it is configured
+                let target = if zombie > 0 && rng.next() % 2 == 0 { front } else { front2 };
+                if let Some(mut c) = tcp(&target) {
+                    if target == front {
+                        let _ = c.write_all(request("good.test", "/x", false).as_bytes());
+                        let _ = read_response(&mut c, Duration::from_secs(5));
                     }
-                    if !closed {
+                    if !wait_closed(&mut c, Duration::from_secs(40)) && target == front2 {
                         println!("viol not-reclaimed an idle client connection was still open 40 s after connecting (front_timeout = 2 s)");
                     }
                 }
             }
-            8 => {
-                // TCP relay: one exchange through the proxy, orderly close
-                if let Ok(mut c) = TcpStream::connect_timeout(&tcp_good, Duration::from_secs(3)) {
+            7 => {
+                // the backend disappears in the middle of the response
+                if let Some(mut c) = tcp(&front) {
+                    let _ = c.write_all(request("good.test", "/cut", false).as_bytes());
+                    let _ = wait_closed(&mut c, Duration::from_secs(6));
+                }
+            }
+            8 | 9 => {
+                // WebSocket upgrade; 8: the client leaves, 9: the backend leaves
+                if let Some(mut c) = tcp(&front) {
+                    let _ = c.write_all(b"GET /ws HTTP/1.1\r\nHost: good.test\r\nUpgrade: websocket\r\nConnection: Upgrade\r\nSec-WebSocket-Key: dGhlIHNhbXBsZSBub25jZQ==\r\nSec-WebSocket-Version: 13\r\n\r\n");
+                    let r = read_response(&mut c, Duration::from_secs(5));
+                    if r.as_ref().is_some_and(|l| l.contains(" 101")) {
+                        let _ = c.write_all(b"ping-ping");
+                        let mut buf = [0u8; 64];
+                        let _ = c.read(&mut buf);
+                        if kind == 9 {
+                            let _ = c.write_all(b"bye");
+                            let _ = wait_closed(&mut c, Duration::from_secs(6));
+                        }
+                    }
+                }
+            }
+            10 => {
+                // garbage instead of a ClientHello
+                if let Some(mut c) = tcp(&fronts) {
+                    let junk: Vec<u8> = (0..200).map(|_| rng.next() as u8).collect();
+                    let _ = c.write_all(&junk);
+                    let _ = wait_closed(&mut c, Duration::from_secs(3));
+                }
+            }
+            11 => {
+                // a real ClientHello, then nothing
+                if let Some(mut sock) = tcp(&fronts) {
+                    if let Ok(mut conn) = ClientConnection::new(tls_config(&[b"h2", b"http/1.1"]), ServerName::try_from("localhost").unwrap()) {
+                        let _ = conn.write_tls(&mut sock);
+                        std::thread::sleep(Duration::from_millis(30));
+                    }
+                    if rng.next() % 2 == 0 {
+                        reset(sock);
+                    }
+                }
+            }
+            12 => {
+                // HTTP/1.1 over TLS
+                if let Some(mut s) = tls_connect(&fronts, &[b"http/1.1"]) {
+                    let _ = s.write_all(request("localhost", "/x", false).as_bytes());
+                    let _ = read_response(&mut s, Duration::from_secs(5));
+                }
+            }
+            13 => {
+                // HTTP/2: two complete streams on one connection (one slot per connection)
+                if let Some(mut s) = h2_open(&fronts) {
+                    let mut ok_first = false;
+                    for (i, sid) in [1u32, 3].into_iter().enumerate() {
+                        let _ = s.write_all(&h2_frame(1, 5, sid, &h2_headers(false, "/x")));
+                        let r = h2_read_stream(&mut s, sid, Duration::from_secs(5));
+                        if i == 0 {
+                            ok_first = r == Some(true);
+                        }
+                    }
+                    let _ = ok_first;
+                    let _ = s.write_all(&h2_frame(7, 0, 0, &[0, 0, 0, 0, 0, 0, 0, 0]));
+                }
+            }
+            14 => {
+                // HTTP/2: a POST whose body never comes, cancelled with RST_STREAM, then a complete stream
+                if let Some(mut s) = h2_open(&fronts) {
+                    let _ = s.write_all(&h2_frame(1, 4, 1, &h2_headers(true, "/x")));
+                    std::thread::sleep(Duration::from_millis(30));
+                    let _ = s.write_all(&h2_frame(3, 0, 1, &[0, 0, 0, 8]));
+                    let _ = s.write_all(&h2_frame(1, 5, 3, &h2_headers(false, "/x")));
+                    let _ = h2_read_stream(&mut s, 3, Duration::from_secs(5));
+                }
+            }
+            15 => {
+                // HTTP/2: the client is gone in the middle of a stream
+                if let Some(mut s) = h2_open(&fronts) {
+                    let _ = s.write_all(&h2_frame(1, 4, 1, &h2_headers(true, "/x")));
+                    let _ = s.write_all(&h2_frame(0, 0, 1, b"half of the bo"));
+                    let _ = s.flush();
+                    std::thread::sleep(Duration::from_millis(30));
+                    let (_conn, sock) = s.into_parts();
+                    if rng.next() % 2 == 0 {
+                        reset(sock);
+                    } else {
+                        drop(sock); // plain FIN, no close_notify, no GOAWAY
+                    }
+                }
+            }
+            16 => {
+                if let Some(mut c) = tcp(&tcp_good) {
                     let _ = c.write_all(b"PING / HTTP/1.1\r\n\r\n");
                     let _ = read_response(&mut c, Duration::from_secs(5));
                 }
             }
-            9 => {
-                // TCP relay: reset while the relay is established
-                if let Ok(mut c) = TcpStream::connect_timeout(&tcp_good, Duration::from_secs(3)) {
+            17 => {
+                if let Some(mut c) = tcp(&tcp_good) {
                     let _ = c.write_all(b"PING / HTTP/1.1\r\n\r\n");
                     let _ = read_response(&mut c, Duration::from_secs(5));
                     let _ = c.write_all(b"half a requ");
                     reset(c);
                 }
             }
-            10 => {
-                // TCP relay whose backend refuses: the proxy gives up and closes
-                if let Ok(mut c) = TcpStream::connect_timeout(&tcp_dead, Duration::from_secs(3)) {
+            18 => {
+                if let Some(mut c) = tcp(&tcp_dead) {
                     let _ = c.write_all(b"hello");
-                    let _ = read_response(&mut c, Duration::from_secs(8));
+                    let _ = wait_closed(&mut c, Duration::from_secs(8));
+                }
+            }
+            19 => {
+                // the backend of a keep-alive connection in use goes away between two requests: served again
+                if let Some(mut c) = tcp(&front) {
+                    let _ = c.write_all(request("good.test", "/cut", false).as_bytes());
+                    let _ = wait_closed(&mut c, Duration::from_secs(6));
+                }
+                if let Some(mut c) = tcp(&front) {
+                    let _ = c.write_all(request("good.test", "/x", true).as_bytes());
+                    let _ = read_response(&mut c, Duration::from_secs(5));
+                }
+            }
+            20 => {
+                // the per-(cluster, ip) limit changes at run time (0 disables and wipes the accounting;
+                // a run that started with a limit never disables it, so that a leaked slot stays visible)
+                let choices: &[u64] = if per_ip == 0 { &[0, 1, 2, 3] } else { &[1, 2, 3] };
+                let n = choices[(rng.next() % choices.len() as u64) as usize];
+                if send(&mut main_ch, &format!("L-{round}"), RequestType::SetMaxConnectionsPerIp(n)).is_some_and(|r| r.status == ResponseStatus::Ok as i32) {
+                    limit = n;
+                    println!("obs limit {n}");
                 }
             }
             _ => {
                 // a storm above max_connections: everybody asks, nobody leaves
                 let n = maxc as usize + 3;
-                let mut conns: Vec<TcpStream> = (0..n).filter_map(|_| connect()).collect();
+                let mut conns: Vec<TcpStream> = (0..n).filter_map(|_| tcp(&front)).collect();
                 for c in conns.iter_mut() {
-                    let _ = c.write_all(request("good.test", false).as_bytes());
+                    let _ = c.write_all(request("good.test", "/x", false).as_bytes());
                 }
+                // pass 1: who is answered 200 while all are held open
+                let mut answered = vec![false; conns.len()];
+                for (i, c) in conns.iter_mut().enumerate() {
+                    answered[i] = read_response(c, Duration::from_millis(400)).is_some_and(|l| l.contains(" 200"));
+                }
+                // pass 2: of those, who is still being served (not closed by the worker: eviction, zombie
+                // check).  Everybody counted was answered before pass 2 began and is open at its own
+                // check, hence all of them were being served at the instant pass 2 began.
                 let mut served = 0;
-                for c in conns.iter_mut() {
-                    // a 200 on a keep-alive connection: the session stays open (60 s timeouts), so
-                    // everybody counted here is being served at the same time
-                    if read_response(c, Duration::from_millis(400)).is_some_and(|l| l.contains(" 200")) {
+                for (i, c) in conns.iter_mut().enumerate() {
+                    if answered[i] && still_open(c) {
                         served += 1;
                     }
                 }
-                println!("obs storm opened={} served_while_all_open={served} max={maxc}", conns.len());
+                println!("obs storm opened={} served_at_once={served} max={maxc} limit={limit}", conns.len());
                 if served as u64 > maxc {
-                    println!("viol over-max {served} connections were answered while {} were held open, max_connections={maxc}", conns.len());
+                    println!("viol over-max {served} connections were being served at once, max_connections={maxc}");
+                }
+                if limit > 0 && served as u64 > limit {
+                    println!("viol over-ip-limit {served} connections from one address to one cluster were being served at once, limit {limit}");
                 }
                 if let Some(g) = gauges(&mut main_ch, &mut qn) {
                     if let Some(v) = get(&g, "client.connections") {
@@ -442,7 +818,8 @@ fn main() {
     let t0 = Instant::now();
     let mut last = vec![];
     let mut ok = false;
-    while t0.elapsed() < Duration::from_secs(40) {
+    let deadline = std::env::var("C16BB_DEADLINE").ok().and_then(|v| v.parse().ok()).unwrap_or(40u64);
+    while t0.elapsed() < Duration::from_secs(deadline) {
         if let Some(g) = gauges(&mut main_ch, &mut qn) {
             last = g.clone();
             let same = base.iter().all(|(k, v)| get(&g, k) == Some(*v))
@@ -468,26 +845,52 @@ fn main() {
             }
         }
     }
-    // after the storm the worker must accept again
-    let mut again = false;
-    for _ in 0..40 {
-        if let Some(mut c) = connect() {
-            let _ = c.write_all(request("good.test", true).as_bytes());
-            if read_response(&mut c, Duration::from_secs(2)).is_some_and(|l| l.contains(" 200")) {
-                again = true;
+    // the worker accepts again, and the per-(cluster, ip) slots are all free: with the limit at n,
+    // n fresh concurrent connections (n <= max_connections) are all served
+    if maxc >= 1 {
+        let n = std::cmp::min(2, maxc);
+        let set = send(&mut main_ch, "L-final", RequestType::SetMaxConnectionsPerIp(n)).is_some_and(|r| r.status == ResponseStatus::Ok as i32);
+        let mut good = 0u64;
+        let mut refused = 0u64;
+        for _attempt in 0..20 {
+            let mut conns: Vec<TcpStream> = (0..n).filter_map(|_| tcp(&front)).collect();
+            good = 0;
+            refused = 0;
+            for c in conns.iter_mut() {
+                let _ = c.write_all(request("good.test", "/x", false).as_bytes());
+            }
+            for c in conns.iter_mut() {
+                match read_response(c, Duration::from_secs(2)) {
+                    Some(l) if l.contains(" 200") => good += 1,
+                    Some(l) if l.contains(" 429") => refused += 1,
+                    _ => {}
+                }
+            }
+            drop(conns);
+            if good == n {
                 break;
             }
+            std::thread::sleep(Duration::from_millis(500));
         }
-        std::thread::sleep(Duration::from_millis(250));
+        if good != n {
+            if set && refused > 0 {
+                println!("viol slot-leak nothing is connected, the per-(cluster, ip) limit is {n}, and of {n} fresh connections {refused} were refused 429: slots are still held");
+            } else {
+                println!("viol accept-wedged only {good} of {n} fresh connections were served within 20 attempts after everything had closed (max_connections={maxc})");
+            }
+        }
     }
-    if !again && maxc >= 1 {
-        println!("viol accept-wedged no request was served within 20 s after all connections closed (max_connections={maxc})");
+    let under = sozu_lib::metrics::VERIF_GAUGE_UNDERFLOWS.load(Ordering::SeqCst) - underflows_before;
+    if under > 0 {
+        let log = std::fs::read_to_string(&logfile).unwrap_or_default();
+        let which: Vec<&str> = log.lines().filter(|l| l.contains("underflow")).take(3).collect();
+        println!("viol gauge-underflow {under} gauge decrements were clamped at zero: {}", which.join(" | ").replace('\n', " "));
     }
-    let log = std::fs::read_to_string(&logfile).unwrap_or_default();
-    for line in log.lines().filter(|l| l.contains("underflow")).take(5) {
-        println!("viol gauge-underflow {}", line.replace('\n', " "));
+    if std::env::var("C16BB_KEEPLOG").is_err() {
+        let _ = std::fs::remove_file(&logfile);
+    } else {
+        println!("note log kept at {logfile}");
     }
-    let _ = std::fs::remove_file(&logfile);
     println!("obs done");
     std::process::exit(0);
 }
